@@ -41,6 +41,15 @@ TARGETS = [
     ("init_rtx", "run.c", r"init_rtx"),
     ("hawk_rtx_open", "run.c", r"hawk_rtx_open"),
     ("hawk_openstdwithmmgr", "std.c", r"hawk_openstdwithmmgr"),
+    # object = block + initialiser (the initialiser itself is not extracted: OPAQUE_ACQ)
+    ("hawk_xma_open", "xma.c", r"hawk_xma_open"),
+    ("hawk_tio_open", "tio.c", r"hawk_tio_open"),
+    ("hawk_fio_open", "fio.c", r"hawk_fio_open"),
+    ("hawk_sio_open", "sio.c", r"hawk_sio_open"),
+    ("hawk_pio_open", "pio.c", r"hawk_pio_open"),
+    ("hawk_dir_init", "dir.c", r"hawk_dir_init"),
+    ("hawk_dir_open", "dir.c", r"hawk_dir_open"),
+    ("hawk_mtx_open", "mtx.c", r"hawk_mtx_open"),
     # open_rtx_std (std.c) is deliberately not a table: it hands resources over to the rtx through an
     # ecb (fini_rxtn), an ownership transfer this table language cannot express.  The fault-injection
     # harness covers it (it is where the double free of the console file arrays was found).
@@ -62,12 +71,17 @@ ALLOC = {"hawk_allocmem", "hawk_callocmem", "hawk_rtx_allocmem", "hawk_rtx_callo
          "hawk_gem_callocmem", "HAWK_MMGR_ALLOC"}
 RELEASE = {"hawk_freemem", "hawk_rtx_freemem", "hawk_gem_freemem", "HAWK_MMGR_FREE",
            "hawk_htb_close", "hawk_arr_close", "hawk_rbt_close", "hawk_htb_fini", "hawk_arr_fini", "hawk_rbt_fini",
-           "ecs_fini", "ecs_close", "hawk_close", "hawk_rtx_close", "fini_rtx", "fini_token"}
+           "ecs_fini", "ecs_close", "hawk_close", "hawk_rtx_close", "fini_rtx", "fini_token", "close_dir_safely"}
 # not extracted, known request count when called as the constructors here call them (checked by the ctor probe)
 LEAF = {"hawk_arr_init": 1, "hawk_rbt_init": 0}
 # not extracted, unknown request count; `acquires` False: everything they allocate is owned by an already held object
-OPAQUE = {"hawk_initgbls", "add_globals", "add_functions", "init_globals", "make_additional_globals",
+OPAQUE = {"read_ahead_and_sort", "hawk_initgbls", "add_globals", "add_functions", "init_globals", "make_additional_globals",
           "hawk_rtx_setofilenamewithoochars", "hawk_rtx_setofilenamewithuchars", "hawk_rtx_setofilenamewithbchars"}
+# not extracted, unknown request count, and they DO acquire: the object they initialise is a resource of the caller
+OPAQUE_ACQ = {"hawk_xma_init", "hawk_tio_init", "hawk_fio_init", "hawk_sio_init", "hawk_sio_initstd", "hawk_pio_init",
+              "hawk_mtx_init", "reset_to_path"}
+# destructor -> constructor where the names do not follow init/fini, open/close
+PAIRS = {"close_dir_safely": "reset_to_path"}
 SOFT = {"hawk_stdmodstartup"}
 INERT = {"HAWK_MEMSET", "HAWK_MEMCPY", "HAWK_ASSERT", "HAWK_SIZEOF", "HAWK_COUNTOF", "HAWK_ALIGN_POW2", "HAWK_T", "CLRERR",
          "hawk_seterrnum", "hawk_rtx_seterrnum", "hawk_geterrnum", "hawk_rtx_errortohawk", "hawk_getgem", "hawk_rtx_getgem",
@@ -402,6 +416,8 @@ class Tr:
             self.trusted.add("LEAF:%s=%d" % (c, LEAF[c])); return ("leaf", c)
         if c in OPAQUE:
             self.trusted.add("OPAQUE:" + c); return ("opaque", c)
+        if c in OPAQUE_ACQ:
+            self.trusted.add("OPAQUE_ACQ:" + c); return ("opaqueacq", c)
         if c in SOFT:
             self.trusted.add("SOFT:" + c); return ("soft", c)
         return None
@@ -442,7 +458,7 @@ class Tr:
                     objs = [o for o in objs if is_lvalue_text(o)]
                     # the released object is the last lvalue argument that names a resource (or could)
                     target = None
-                    pair = re.sub(r"fini", "init", re.sub(r"close", "open", fn))
+                    pair = PAIRS.get(fn) or re.sub(r"fini", "init", re.sub(r"close", "open", fn))
                     for o in reversed(objs):
                         for cand in (o + "." + pair, o):
                             if cand in self.res:
@@ -575,7 +591,7 @@ class Tr:
                     lhs, rhs = t[:eq], t[eq + 1:]
                     c = as_call(rhs)
                     ck = self.callee_kind(c[0]) if c else None
-                    if ck and ck[0] in ("prim", "call", "leaf", "opaque"):
+                    if ck and ck[0] in ("prim", "call", "leaf", "opaque", "opaqueacq"):
                         if pending:
                             # the previous acquisition was never tested: it is a deferred one
                             r = self.add_acq(pending[0], None, pending[1]); deferred.append(r)
@@ -878,7 +894,7 @@ def emit(tables):
                 cs.append(".call %s" % lean_str(c[1]))
             elif c[0] == "leaf":
                 cs.append(".leaf %s %d" % (lean_str(c[1]), LEAF[c[1]]))
-            elif c[0] in ("opaque", "soft"):
+            elif c[0] in ("opaque", "soft", "opaqueacq"):
                 cs.append(".opaque %s" % lean_str(c[1]))
             else:
                 cs.append(".none")
